@@ -173,6 +173,8 @@ def _families(names, seed, tier):
             specs += CP.family_values()
         elif n == 'reject':
             specs += CP.family_reject()
+        elif n == 'packages':
+            specs += CP.family_packages()
     return specs
 
 
@@ -356,3 +358,20 @@ PROPS['C15'] = dict(
     outside='rewritePkgRefs\' qualifier rewriting and capture-avoiding renaming, copyNonInjectorDecls\' selection and order, printing (comments/positions after gofmt) — not covered in this revision; ast.File / ast.Package never reach copyAST; Ident.Obj (resolver link) is not syntax',
     assumptions=['astutil.Apply is executed from its source; reflect.Indirect / FieldByName / Index / Interface are engine models', 'go/ast field comments mentioning nil mark optional children'],
 )
+
+
+# side-A string harnesses added to C12 / C14
+PROPS['C12']['quick'] = PROPS['C12']['quick'] + [wspec('H_field', fields=2, len=2), tspec('H_recog_struct', maxform=6), tspec('H_recog_fieldsof', maxform=3)]
+PROPS['C12']['thorough'] = PROPS['C12']['thorough'] + [wspec('H_field', fields=3, len=3), tspec('H_recog_struct'), tspec('H_recog_fieldsof')]
+PROPS['C12']['covers'] = {'H_field': ['field-selected', 'field-refused'], 'H_recog_struct': ['struct-accepted'], 'H_recog_fieldsof': ['fieldsof-accepted']}
+PROPS['C12']['bounds_text'] += '; side A: checkField / allFields / isPrevented for every field and request name of 2 (3) identifier bytes over 2 (3) fields with symbolic prevent tags; the recognisers on real go/ast + go/types shapes'
+PROPS['C14']['quick'] = PROPS['C14']['quick'] + [wspec('H_names', len=2, taken=5), wspec('H_unvendor', len=12), wspec('H_maporder', replayable=False, permute_maps=1, imports=3, anon=2, values=2)]
+PROPS['C14']['thorough'] = PROPS['C14']['thorough'] + [wspec('H_names', len=3, taken=6), wspec('H_unvendor', len=16)]
+PROPS['C14']['covers'] = {'H_names': ['disambiguated']}
+PROPS['C14']['bounds_text'] += '; side A: disambiguate / typeVariableName for every name of 2 (3) identifier bytes against a symbolic set of 5 (6) taken names containing the name itself, its numbered successor and arbitrary others, with a step budget as termination assertion'
+PROPS['C11']['quick'] = PROPS['C11']['quick'] + [tspec('H_recog_bind', maxform=2)]
+PROPS['C11']['thorough'] = PROPS['C11']['thorough'] + [tspec('H_recog_bind')]
+
+PROPS['C02']['quick'] = PROPS['C02']['quick'][:-1] + [sideb(['chains3', 'kinds', 'packages'])]
+PROPS['C02']['thorough'] = PROPS['C02']['thorough'][:-1] + [sideb(['chains4', 'deep', 'kinds', 'grouping', 'packages'])]
+PROPS['C10']['quick'] = PROPS['C10']['quick'][:-1] + [sideb(['grouping', 'kinds', 'packages'])]
